@@ -26,6 +26,31 @@ from efootprint.core.usage.usage_pattern import UsagePattern
 from efootprint.core.system import System
 
 
+def qjson(v):
+    """a real ExplainableQuantity as the driver's quantity JSON"""
+    from harness import leanio
+    from harness.common import rat_str
+    return {"q": rat_str(float(v.value.magnitude)), "u": leanio.unit_json(realsys.unit_info, str(v.value.units))}
+
+
+def model_vs_real(kind, inputs, real_outputs):
+    """K-builders: the Lean derivation rules on the same inputs vs the derived parameters of the real builder"""
+    from harness.common import run_lean
+    from harness import leanio
+    req = {"cmd": "derive", "kind": kind}
+    for k, v in inputs.items():
+        req[k] = v if isinstance(v, int) else qjson(v)
+    ans, = run_lean([req])
+    if "bad" in ans or "err" in ans:
+        return [f"model: {ans}"]
+    dis = []
+    for k, v in real_outputs.items():
+        why = leanio.compare_vals(canon(v), leanio.lean_val(ans[k]))
+        if why:
+            dis.append(f"{kind}.{k}: {why}")
+    return dis
+
+
 def phys(v):
     c = canon(v)
     return None if c is None else (frac(c["m"]) * c["scale"], tuple(c["dim"]))
@@ -90,6 +115,11 @@ def case_video(rng, choice=None):
     why = sysoracles.obs_diff(footprints(sysA), footprints(sysB))
     if why:
         vs.append(("video-streaming-differs-from-plain-job", why))
+    w0, h0 = map(int, re.search(r"\((\d+)\s*x\s*(\d+)\)", resolution).groups())
+    DIS.extend(model_vs_real("video", {"pixels": w0 * h0, "bits_per_pixel": svc.bits_per_pixel, "refresh_rate": jobA.refresh_rate,
+                                        "video_duration": jobA.video_duration, "static_delivery_cpu_cost": svc.static_delivery_cpu_cost,
+                                        "ram_buffer_per_user": svc.ram_buffer_per_user},
+                             {k: getattr(jobA, k) for k in ("dynamic_bitrate", "data_transferred", "request_duration", "compute_needed", "ram_needed")}))
     # the stated rule: bitrate = pixels × bits per pixel × frame rate; data = bitrate × duration; cpu = cost × bitrate
     w, h = map(int, re.search(r"\((\d+)\s*x\s*(\d+)\)", resolution).groups())
     bitrate = Fraction(w * h) * frac(bpp) * frac(fps)          # bits / s (bit is dimensionless in pint)
@@ -178,6 +208,14 @@ def case_genai(rng, choice=None):
         if en in ("capacity",):
             return [], {"builder": "genai", "choice": [provider, name], "outcome": en}
         return [(f"genai-build-raises:{en}", f"{provider}/{name}: {e}")], {"builder": "genai", "choice": [provider, name]}
+    DIS.extend(model_vs_real("genai", {"active_params": svc.active_params, "total_params": svc.total_params,
+                                        "nb_of_bits_per_parameter": svc.nb_of_bits_per_parameter, "llm_memory_factor": svc.llm_memory_factor,
+                                        "gpu_latency_alpha": svc.gpu_latency_alpha, "gpu_latency_beta": svc.gpu_latency_beta,
+                                        "bits_per_token": svc.bits_per_token, "output_token_count": job.output_token_count,
+                                        "ram_per_gpu": gpu.ram_per_gpu},
+                             {"output_token_weights": job.output_token_weights, "data_transferred": job.data_transferred,
+                              "data_stored": job.data_stored, "request_duration": job.request_duration,
+                              "compute_needed": job.compute_needed, "base_ram_consumption": svc.base_ram_consumption}))
     active, total = phys(svc.active_params)[0], phys(svc.total_params)[0]
     bits = phys(svc.nb_of_bits_per_parameter)[0]
     fac = phys(svc.llm_memory_factor)[0]
@@ -257,20 +295,26 @@ def case_cloud(rng, choice=None):
     return vs, {"builder": "cloud", "choice": [provider, itype], "mixed_with_plain_job": mixed}
 
 
+DIS = []      # K-builders disagreements collected by the cases of the current shard
+
 CASES = {"video": case_video, "web": case_web, "genai": case_genai, "cloud": case_cloud}
 
 
 def shard(args):
     seed, jobs_list = args
     rng = random.Random(seed)
-    out = {"cases": 0, "violations": [], "samples": [], "builders": {}}
+    out = {"cases": 0, "violations": [], "samples": [], "builders": {}, "disagreements": [], "corr": 0}
     for kind, choice in jobs_list:
+        del DIS[:]
+        if kind in ("video", "genai"):
+            out["corr"] += 1
         try:
             with watchdog(120):
                 vs, info = CASES[kind](rng, choice)
         except Exception as e:  # noqa
             vs, info = [(f"{kind}-oracle-raises:{type(e).__name__}", str(e)[:200])], {"builder": kind, "choice": choice}
         out["cases"] += 1
+        out["disagreements"] += [{"why": d, "kind": kind, "choice": choice} for d in DIS]
         out["builders"][kind] = out["builders"].get(kind, 0) + 1
         for sig, detail in vs:
             out["violations"].append({"signature": f"C17:{sig}", "detail": f"{info.get('choice')}: {detail}", "replay": {"kind": kind, "choice": info.get("choice"), "seed": seed}})
